@@ -781,8 +781,10 @@ def readsOf (e : Env) : DecOp → Info → Option (List Read)
   | _, _ => none
 
 /-- the memory after a step (independent of the reads' verdict) -/
-def nextMem (m : Memory) : DecOp → Info → Memory
-  | .block b, .block i => writePieces m b.ofm.region i.ofm.tid (fmPiecesS b.ofm i.ofm.y0 i.ofm.x0 i.ofm.c0 i.ofm.shifts) 0
+def nextMem (e : Env) (m : Memory) : DecOp → Info → Memory
+  | .block b, .block i =>
+    writePieces (writePieces m REGION_SHRAM junkTid (shramClobber e b) 0)
+      b.ofm.region i.ofm.tid (fmPiecesS b.ofm i.ofm.y0 i.ofm.x0 i.ofm.c0 i.ofm.shifts) 0
   | .dma d, .dma i =>
     writePieces (writePieces m d.dst.region junkTid [⟨d.dst.addr, d.dst.len, 0⟩]) d.dst.region i.dstTid
       [⟨d.dst.addr, i.validLen d.dst.len, i.dstDelta⟩] 0
@@ -793,10 +795,10 @@ def StepOk (e : Env) (m : Memory) (op : DecOp) (info : Info) : Prop :=
   ∃ rs, readsOf e op info = some rs ∧ ∀ r ∈ rs, r.Ok m
 
 theorem step_snd (e : Env) (m : Memory) (idx : Nat) (op : DecOp) (info : Info) :
-    (step e m idx op info).2 = nextMem m op info := by
+    (step e m idx op info).2 = nextMem e m op info := by
   cases op <;> cases info <;> rfl
 
-theorem nextMem_inv {m : Memory} (h : m.Inv) (op : DecOp) (info : Info) : (nextMem m op info).Inv := by
+theorem nextMem_inv (e : Env) {m : Memory} (h : m.Inv) (op : DecOp) (info : Info) : (nextMem e m op info).Inv := by
   cases op <;> cases info <;>
     first | exact writePieces_inv h _ _ _ _ | exact writePieces_inv (writePieces_inv h _ _ _ _) _ _ _ _ | exact h
 
@@ -821,7 +823,7 @@ theorem step_fst_nil_iff (e : Env) {m : Memory} (h : m.Inv) (idx : Nat) (op : De
 /-- the whole run is fine: each step is fine in the memory produced by the steps before it -/
 def RunOk (e : Env) : Memory → List (DecOp × Info) → Prop
   | _, [] => True
-  | m, (op, info) :: rest => StepOk e m op info ∧ RunOk e (nextMem m op info) rest
+  | m, (op, info) :: rest => StepOk e m op info ∧ RunOk e (nextMem e m op info) rest
 
 theorem execGo_nil_iff (e : Env) (l : List ((DecOp × Info) × Nat)) {m : Memory} (h : m.Inv) (acc : List String) :
     execGo e l m acc = [] ↔ acc = [] ∧ RunOk e m (l.map (·.1)) := by
@@ -830,8 +832,8 @@ theorem execGo_nil_iff (e : Env) (l : List ((DecOp × Info) × Nat)) {m : Memory
   | cons x rest ih =>
     obtain ⟨⟨op, info⟩, idx⟩ := x
     show execGo e rest (step e m idx op info).2 (acc ++ (step e m idx op info).1) = [] ↔
-      acc = [] ∧ StepOk e m op info ∧ RunOk e (nextMem m op info) (rest.map (·.1))
-    rw [step_snd, ih (nextMem_inv h op info), List.append_eq_nil_iff, step_fst_nil_iff e h]
+      acc = [] ∧ StepOk e m op info ∧ RunOk e (nextMem e m op info) (rest.map (·.1))
+    rw [step_snd, ih (nextMem_inv e h op info), List.append_eq_nil_iff, step_fst_nil_iff e h]
     exact ⟨fun ⟨⟨a, b⟩, c⟩ => ⟨a, b, c⟩, fun ⟨a, b, c⟩ => ⟨⟨a, b⟩, c⟩⟩
 
 theorem zipIdx_map_fst {α : Type} (l : List α) (k : Nat) : (l.zipIdx k).map (·.1) = l := by
@@ -848,21 +850,21 @@ theorem execTagged_nil_iff (e : Env) {init : Memory} (h : init.Inv) (ops : List 
   exact ⟨fun hh => hh.2, fun hh => ⟨rfl, hh⟩⟩
 
 /-- memory at the moment step `k` executes -/
-def memAt (init : Memory) (l : List (DecOp × Info)) (k : Nat) : Memory :=
-  (l.take k).foldl (fun m oi => nextMem m oi.1 oi.2) init
+def memAt (e : Env) (init : Memory) (l : List (DecOp × Info)) (k : Nat) : Memory :=
+  (l.take k).foldl (fun m oi => nextMem e m oi.1 oi.2) init
 
-theorem memAt_zero (init : Memory) (l : List (DecOp × Info)) : memAt init l 0 = init := rfl
+theorem memAt_zero (e : Env) (init : Memory) (l : List (DecOp × Info)) : memAt e init l 0 = init := rfl
 
-theorem memAt_succ_cons (init : Memory) (x : DecOp × Info) (l : List (DecOp × Info)) (k : Nat) :
-    memAt init (x :: l) (k + 1) = memAt (nextMem init x.1 x.2) l k := rfl
+theorem memAt_succ_cons (e : Env) (init : Memory) (x : DecOp × Info) (l : List (DecOp × Info)) (k : Nat) :
+    memAt e init (x :: l) (k + 1) = memAt e (nextMem e init x.1 x.2) l k := rfl
 
 theorem RunOk_iff_forall (e : Env) (init : Memory) (l : List (DecOp × Info)) :
-    RunOk e init l ↔ ∀ k (hk : k < l.length), StepOk e (memAt init l k) l[k].1 l[k].2 := by
+    RunOk e init l ↔ ∀ k (hk : k < l.length), StepOk e (memAt e init l k) l[k].1 l[k].2 := by
   induction l generalizing init with
   | nil => exact ⟨fun _ k hk => absurd hk (Nat.not_lt_zero _), fun _ => trivial⟩
   | cons x rest ih =>
     obtain ⟨op, info⟩ := x
-    show StepOk e init op info ∧ RunOk e (nextMem init op info) rest ↔ _
+    show StepOk e init op info ∧ RunOk e (nextMem e init op info) rest ↔ _
     rw [ih]
     constructor
     · intro ⟨h0, hr⟩ k hk
